@@ -19,6 +19,7 @@
 (*                       so no record is ever produced                                            *)
 (*           "split_ge"  seeded deviation: splits at gaps >= max_N_span and forgets the gap       *)
 (*           "umi_max"   seeded deviation: the molecule's UMI is the largest one seen, not the most common *)
+(*           "site_leftmost"  seeded deviation: the molecule keeps the left-most cut also on the reverse strand *)
 (*           "tf_no_overflow"  seeded deviation: the record's TF tag leaves out the fragments    *)
 (*                       refused because of max_associated_fragments (the source reads count them)*)
 EXTENDS Integers, FiniteSets, Sequences, TLC, Util
@@ -29,6 +30,7 @@ CONSTANTS Pos,        \* reference positions 1..P (a set; must be an interval st
           MaxReads,
           Refs,       \* set of reference sequences (Seq over {"A","C","G","T"}) of length P
           UMIs,       \* UMIs a fragment can carry (integers in the model)
+          Sites,      \* cut sites a fragment can have (CHIC molecule built with an assignment radius)
           Cap,        \* max_associated_fragments (0 stands for None): further fragments are refused and counted as overflow
           MaxNs1,     \* values of max_N_span + 1; 0 stands for None (a .cfg cannot hold -1)
           Variant
@@ -76,14 +78,17 @@ BasesIn(bag) == { bag[i][1] : i \in DOMAIN bag }
 Count(bag, b) == Cardinality({ i \in DOMAIN bag : bag[i][1] = b })
 EqualQ(bag) == \A i, j \in DOMAIN bag : bag[i][2] = bag[j][2]
 
-(* (i) all qualities equal and >= 10: strict plurality, tie -> N.  (ii) at most two observations with
-   qualities in {10,20,30}: the better one wins, equal quality and different bases -> N.
+(* (i) all qualities equal and >= 10: strict plurality, tie -> N.  (ii) superseded by (iv).
    (iii) low qualities, exact without real arithmetic: the error probability e = 10^(-q/10) is >= 1/2 iff
    10^q <= 2^10 = 1024 iff q <= 3 (LowQLemma below).  The caller compares the likelihood of a base,
    prod over its observations of (1 - e_i) * 4^(n_b - 1), with that of the pseudo-base N, prod over ALL observations of
    e_i * 4^(n - 1).  If every observation has q <= 3 then every e_i > 1/2 > 1 - e_i and N wins whatever was seen;
    if only ONE distinct base was seen and every q >= 4 then every 1 - e_i > e_i and that base wins.  A single base
-   with qualities on both sides of the threshold is left undecided.                                              *)
+   with qualities on both sides of the threshold is left undecided.
+   (iv) exactly two observations with different bases (monotonicity, no real arithmetic): equal qualities -> the two
+   likelihoods 1 - e are equal, the two best are tied (or N is ahead of both) -> N for EVERY quality; different qualities
+   q1 > q2 >= 4 -> 1 - e1 > 1 - e2 and, because q1 >= 5 gives e1 < 0.317 and q2 >= 4 gives e2 < 0.399, also
+   1 - e1 > 0.68 > 4 * e1 * e2 (the N hypothesis) -> the base with the higher quality, up to phred 93.          *)
 AllLow(bag)  == \A i \in DOMAIN bag : bag[i][2] <= 3
 AllHigh(bag) == \A i \in DOMAIN bag : bag[i][2] >= 4
 OneBase(bag) == Cardinality(BasesIn(bag)) = 1
@@ -92,7 +97,7 @@ Decidable(bag0) == LET bag == Informative(bag0) IN
     \/ AllLow(bag)
     \/ (OneBase(bag) /\ AllHigh(bag))
     \/ (EqualQ(bag) /\ bag[1][2] >= 10)
-    \/ (Len(bag) <= 2 /\ \A i \in DOMAIN bag : bag[i][2] \in {10, 20, 30})
+    \/ (Len(bag) = 2 /\ (EqualQ(bag) \/ AllHigh(bag)))
 CallP(bag0) == LET bag == Informative(bag0) IN
     IF bag = <<>> THEN "N"
     ELSE IF AllLow(bag) THEN "N"
@@ -137,8 +142,11 @@ Inv_Call(recs, conf) ==
 (* the molecule's UMI is the most common UMI of its fragments; with a tie either of the tied ones *)
 CountOf(U, u) == Cardinality({ i \in DOMAIN U : U[i] = u })
 ModeSet(U) == { u \in SeqSet(U) : \A v \in SeqSet(U) : CountOf(U, u) >= CountOf(U, v) }
-Inv_Tags(recs, mol, U) == \A i \in DOMAIN recs :
-    /\ recs[i].tags.SM = mol.SM /\ recs[i].tags.DS = mol.DS /\ recs[i].tags.TF = mol.TF
+(* the site of a CHIC molecule whose fragments were cut at (slightly) different places: the outermost cut -
+   the smallest coordinate on the forward strand, the largest on the reverse strand (CHICMolecule._add_fragment) *)
+ExpSite(S, rev) == IF rev THEN MaxOf(SeqSet(S)) ELSE MinOf(SeqSet(S))
+Inv_Tags(recs, mol, U, S, rev) == \A i \in DOMAIN recs :
+    /\ recs[i].tags.SM = mol.SM /\ recs[i].tags.DS = ExpSite(S, rev) /\ recs[i].tags.TF = mol.TF
     /\ recs[i].tags.RX \in ModeSet(U)
 
 ---------------------------------------------------------------------------------------------------
@@ -171,6 +179,7 @@ VARIABLES ref,      \* the reference sequence
           strand,   \* molecule strand
           nfrag,    \* number of fragments (a fragment has one or two reads)
           nreads,
+          sites,    \* cut sites of the accepted fragments in arrival order
           umis,     \* UMIs of the accepted fragments in arrival order (Molecule.umi_counter)
           overflow, \* fragments refused by max_associated_fragments (Molecule.overflow_fragments)
           open,     \* TRUE when the last fragment can still take a second read
@@ -179,37 +188,41 @@ VARIABLES ref,      \* the reference sequence
           calls,    \* position -> called base
           cigar, ix, refpos, refstart, refend, pCigar, pSeq,     \* generate_partial_reads locals
           recs, raised
-vars == <<ref, maxN, strand, nfrag, nreads, umis, overflow, open, conf, pc, calls, cigar, ix, refpos, refstart, refend, pCigar, pSeq, recs, raised>>
+vars == <<ref, maxN, strand, nfrag, nreads, sites, umis, overflow, open, conf, pc, calls, cigar, ix, refpos, refstart, refend, pCigar, pSeq, recs, raised>>
 
 (* the molecule's fragment count as written on its source reads by write_tags: associated + overflow *)
-MolTags == [SM |-> "cell", DS |-> 7, TF |-> nfrag + overflow]
+MolTags == [SM |-> "cell", TF |-> nfrag + overflow]
+(* CHICMolecule._add_fragment: the first fragment sets the site, later ones move it outwards *)
+SiteStep(cur, s) == IF strand /\ Variant # "site_leftmost" THEN (IF s > cur THEN s ELSE cur) ELSE (IF s < cur THEN s ELSE cur)
+SiteD == FoldLeft(SiteStep, sites[1], sites)
 (* update_umi: umi_counter.most_common(1) - the highest count, the earliest seen among equals *)
 UmiD == IF Variant = "umi_max" THEN MaxOf(SeqSet(umis))
         ELSE LET first(u) == MinOf({ i \in DOMAIN umis : umis[i] = u })
              IN CHOOSE u \in ModeSet(umis) : \A v \in ModeSet(umis) : first(u) <= first(v)
 (* write_tags_to_psuedoreads *)
-RecTags == [SM |-> "cell", RX |-> UmiD, DS |-> 7, TF |-> IF Variant = "tf_no_overflow" THEN nfrag ELSE nfrag + overflow]
+RecTags == [SM |-> "cell", RX |-> UmiD, DS |-> SiteD, TF |-> IF Variant = "tf_no_overflow" THEN nfrag ELSE nfrag + overflow]
 
 Reads == UNION { { [ p \in s .. e |-> <<bb[p], q>> ] : bb \in [ s .. e -> ReadBases ], q \in Quals }
                  : <<s, e>> \in { x \in Pos \X Pos : x[1] <= x[2] } }
 
 Init == /\ ref \in Refs /\ maxN \in { x - 1 : x \in MaxNs1 } /\ strand \in BOOLEAN
-        /\ nfrag = 0 /\ nreads = 0 /\ umis = <<>> /\ overflow = 0 /\ open = FALSE
+        /\ nfrag = 0 /\ nreads = 0 /\ sites = <<>> /\ umis = <<>> /\ overflow = 0 /\ open = FALSE
         /\ conf = [ p \in Pos |-> <<>> ]
         /\ pc = "collect" /\ calls = <<>> /\ cigar = <<>> /\ ix = 1
         /\ refpos = 0 /\ refstart = 0 /\ refend = 0 /\ pCigar = <<>> /\ pSeq = <<>>
         /\ recs = <<>> /\ raised = FALSE
 
 (* get_base_confidence_dict, one read: obs[(chrom, rpos)][qbase].append(confidence) *)
-AddRead(r, second, u) ==
+AddRead(r, second, u, st) ==
     /\ pc = "collect" /\ nreads < MaxReads
-    /\ second => (open /\ u = MinOf(UMIs))          \* the UMI belongs to the fragment, not to its second mate
+    /\ second => (open /\ u = MinOf(UMIs) /\ st = MinOf(Sites))     \* UMI and site belong to the fragment, not to its second mate
     /\ nreads' = nreads + 1
     /\ IF ~second /\ Cap > 0 /\ nfrag >= Cap
        THEN \* Molecule._add_fragment: overflow_fragments += 1; raise OverflowError - the fragment (both mates) stays out
-            /\ overflow' = overflow + 1 /\ open' = FALSE /\ UNCHANGED <<nfrag, conf, umis>>
+            /\ overflow' = overflow + 1 /\ open' = FALSE /\ UNCHANGED <<nfrag, conf, umis, sites>>
        ELSE /\ nfrag' = IF second THEN nfrag ELSE nfrag + 1
             /\ umis' = IF second THEN umis ELSE Append(umis, u)        \* umi_counter[fragment.umi] += 1; update_umi()
+            /\ sites' = IF second THEN sites ELSE Append(sites, st)
             /\ open' = ~second
             /\ conf' = [ p \in Pos |-> IF p \in DOMAIN r THEN Append(conf[p], r[p]) ELSE conf[p] ]
             /\ UNCHANGED overflow
@@ -218,7 +231,7 @@ AddRead(r, second, u) ==
 EndCollect ==
     /\ pc = "collect" /\ nfrag > 0
     /\ pc' = "call"
-    /\ UNCHANGED <<ref, maxN, strand, nfrag, nreads, umis, overflow, open, conf, calls, cigar, ix, refpos, refstart, refend, pCigar, pSeq, recs, raised>>
+    /\ UNCHANGED <<ref, maxN, strand, nfrag, nreads, sites, umis, overflow, open, conf, calls, cigar, ix, refpos, refstart, refend, pCigar, pSeq, recs, raised>>
 
 (* obs = {position: phredscores_to_base_call(probs) ...} *)
 CallAll ==
@@ -227,7 +240,7 @@ CallAll ==
        THEN /\ raised' = TRUE /\ pc' = "done" /\ UNCHANGED calls      \* AttributeError: numpy has no attribute 'product'
        ELSE /\ calls' = [ p \in Covered(conf) |-> CallD(conf[p]) ]
             /\ pc' = "cigar" /\ UNCHANGED raised
-    /\ UNCHANGED <<ref, maxN, strand, nfrag, nreads, umis, overflow, open, conf, cigar, ix, refpos, refstart, refend, pCigar, pSeq, recs>>
+    /\ UNCHANGED <<ref, maxN, strand, nfrag, nreads, sites, umis, overflow, open, conf, cigar, ix, refpos, refstart, refend, pCigar, pSeq, recs>>
 
 (* get_CIGAR: M for every aligned block, N between consecutive blocks *)
 RECURSIVE CigarOf(_, _)
@@ -241,7 +254,7 @@ BuildCigar ==
     /\ cigar' = CigarOf(BlocksOf(Covered(conf)), -1)
     /\ refpos' = MinOf(Covered(conf)) /\ refstart' = MinOf(Covered(conf))
     /\ ix' = 1 /\ pc' = "walk"
-    /\ UNCHANGED <<ref, maxN, strand, nfrag, nreads, umis, overflow, open, conf, calls, refend, pCigar, pSeq, recs, raised>>
+    /\ UNCHANGED <<ref, maxN, strand, nfrag, nreads, sites, umis, overflow, open, conf, calls, refend, pCigar, pSeq, recs, raised>>
 
 (* the record get_dedup_reads / get_consensus_read build from one yield of generate_partial_reads *)
 MRef(start, ops) == LET pos == MPositions(ops, 1, start) IN [ k \in DOMAIN pos |-> ref[pos[k]] ]
@@ -269,15 +282,15 @@ StepOp ==
            /\ pSeq' = pSeq \o [ k \in 1 .. o.n |-> calls[refpos + k - 1] ]               \* extract_stretch_from_dict
            /\ UNCHANGED recs
     /\ ix' = ix + 1
-    /\ UNCHANGED <<ref, maxN, strand, nfrag, nreads, umis, overflow, open, conf, pc, calls, cigar, raised>>
+    /\ UNCHANGED <<ref, maxN, strand, nfrag, nreads, sites, umis, overflow, open, conf, pc, calls, cigar, raised>>
 
 Finish ==
     /\ pc = "walk" /\ ix > Len(cigar)
     /\ recs' = Append(recs, Record(refstart, refend, pCigar, pSeq))
     /\ pc' = "done"
-    /\ UNCHANGED <<ref, maxN, strand, nfrag, nreads, umis, overflow, open, conf, calls, cigar, ix, refpos, refstart, refend, pCigar, pSeq, raised>>
+    /\ UNCHANGED <<ref, maxN, strand, nfrag, nreads, sites, umis, overflow, open, conf, calls, cigar, ix, refpos, refstart, refend, pCigar, pSeq, raised>>
 
-Next == \/ \E r \in Reads, second \in BOOLEAN, u \in UMIs : AddRead(r, second, u)
+Next == \/ \E r \in Reads, second \in BOOLEAN, u \in UMIs, st \in Sites : AddRead(r, second, u, st)
         \/ EndCollect \/ CallAll \/ BuildCigar \/ StepOp \/ Finish
 Spec == Init /\ [][Next]_vars
 
@@ -290,7 +303,7 @@ Inv_C15_Blocks == Done => Inv_Blocks(recs, conf)
 Inv_C15_Lens   == Done => Inv_Lens(recs)
 Inv_C15_MD     == Done => Inv_MD(recs, RefAt)
 Inv_C15_Call   == Done => Inv_Call(recs, conf)
-Inv_C15_Tags   == Done => (Inv_Tags(recs, MolTags, umis) /\ \A i \in DOMAIN recs : recs[i].rev = strand)
+Inv_C15_Tags   == Done => (Inv_Tags(recs, MolTags, umis, sites, strand) /\ \A i \in DOMAIN recs : recs[i].rev = strand)
 
 (* design-level only (not part of the statement): records are cut exactly at gaps longer than max_N_span *)
 GapsIn(rec) == { rec.cigar[i].n : i \in { j \in DOMAIN rec.cigar : rec.cigar[j].op = "N" } }
